@@ -156,14 +156,20 @@ Section ManagerP.
                  = aget (g_uows G) (ss_conn s)).
     { destruct (aget (g_uows G) (ss_conn s')); [reflexivity | apply aget_aset_other; exact Hc]. }
     assert (E2 : aget (if existsb (fun p => (snd p =? ss_conn s')%nat) (g_smap G)
-                       then g_smap G else g_smap G ++ [(ss_id s', ss_conn s')]) (ss_id s)
+                       then g_smap G else aset (g_smap G) (ss_id s') (ss_conn s')) (ss_id s)
                  = aget (g_smap G) (ss_id s)).
     { destruct (existsb (fun p => (snd p =? ss_conn s')%nat) (g_smap G)); [reflexivity|].
-      destruct (aget (g_smap G) (ss_id s)) as [v|] eqn:E.
-      - apply aget_app_some. exact E.
-      - rewrite aget_app_none by exact E. simpl.
-        destruct (ss_id s' =? ss_id s)%nat eqn:E3; [apply Nat.eqb_eq in E3; congruence | reflexivity]. }
+      apply aget_aset_other. exact Hid. }
     rewrite E1, E2. reflexivity.
+  Qed.
+
+  Lemma in_aset {A} (l : list (nat * A)) k v x : In x (aset l k v) -> x = (k, v) \/ In x l.
+  Proof.
+    induction l as [|[k0 v0] l IH]; simpl.
+    - intros [H|[]]. left. auto.
+    - destruct (k0 =? k)%nat; simpl.
+      + intros [H|H]; [left; auto | right; right; exact H].
+      + intros [H|H]; [right; left; exact H|]. destruct (IH H) as [H'|H']; [left; exact H' | right; right; exact H'].
   Qed.
 
   Lemma smap_ok_register conn_of G s :
@@ -171,7 +177,7 @@ Section ManagerP.
   Proof.
     intros Hco Hok sid c Hin. unfold Manager.register in Hin. simpl in Hin.
     destruct (existsb (fun p => (snd p =? ss_conn s)%nat) (g_smap G)); [apply Hok; exact Hin|].
-    apply in_app_or in Hin as [Hin|[E|[]]]; [apply Hok; exact Hin|]. inversion E; subst. auto.
+    apply in_aset in Hin as [E|Hin]; [inversion E; subst; auto | apply Hok; exact Hin].
   Qed.
 
   Lemma smap_ok_sub conn_of G G' :
@@ -280,9 +286,7 @@ Section ManagerP.
     intros Hinj Hco Hok. unfold view, Manager.register. simpl.
     rewrite (registered_iff conn_of G s Hinj Hco Hok).
     destruct (aget (g_uows G) (ss_conn s)) as [u|] eqn:Eu; destruct (aget (g_smap G) (ss_id s)) as [c|] eqn:Es;
-      rewrite ?Eu, ?Es, ?aget_aset_same; try reflexivity.
-    - rewrite (aget_app_none _ _ _ Es). simpl. rewrite Nat.eqb_refl. reflexivity.
-    - rewrite (aget_app_none _ _ _ Es). simpl. rewrite Nat.eqb_refl. reflexivity.
+      rewrite ?Eu, ?Es, ?aget_aset_same; reflexivity.
   Qed.
 
   Lemma view_clear_same conn_of G s :
